@@ -579,6 +579,81 @@ theorem write_to_file_meets_spec_in (env : Env) (r : Results) (h : Handle) (d : 
     specWriteToFile r h d (writeToFileIn env r h d) = true := by
   rw [writeToFileIn_eq]; exact write_to_file_meets_spec r h d
 
+/-! ## a directory at the target path -/
+
+/-- the target path names a directory: whatever the results and the environment, `write_to_file`
+    fails, the directory listing — the directory at the target included — is what it was, and nothing
+    is written: a conversion fault is reported before any `open`, otherwise the failed `open` is the
+    only file event -/
+theorem directory_target_untouched (env : Env) (r : Results) (n : String) (d : Dir)
+    (hd : targetIsDir (.path n) d = true) :
+    (∃ e, (writeToFileAt env r (.path n) d).err = some e) ∧ (writeToFileAt env r (.path n) d).dir = d ∧
+    (r.hasFault = true → (writeToFileAt env r (.path n) d).trace.any Ev.touchesFiles = false) ∧
+    (r.hasFault = false → (writeToFileAt env r (.path n) d) =
+      ⟨(convertRecords 0 r.records r.results).trace ++ [.openW n], some "IsADirectoryError", d⟩) := by
+  cases hf : r.hasFault with
+  | true =>
+    obtain ⟨⟨e, he⟩, h2, _, h4⟩ := failed_conversion_preserves_file r (.path n) d hf
+    have hw : writeToFileAt env r (.path n) d = writeToFile r (.path n) d := by
+      simp [writeToFileAt, writeToFileIn_eq, hd, he]
+    rw [hw]
+    refine ⟨⟨e, he⟩, h2, fun _ => h4, ?_⟩
+    intro h; simp at h
+  | false =>
+    obtain ⟨h1, _⟩ := clean_write_complete r (.path n) d hf
+    have hw : writeToFileAt env r (.path n) d =
+        ⟨(convertRecords 0 r.records r.results).trace ++ [.openW n], some "IsADirectoryError", d⟩ := by
+      simp [writeToFileAt, writeToFileIn_eq, hd, h1]
+    rw [hw]
+    refine ⟨⟨_, rfl⟩, rfl, ?_, ?_⟩
+    · intro h; simp at h
+    · intro _; rfl
+
+/-- when the target is not a directory, `writeToFileAt` is `write_to_file` as analysed above -/
+theorem write_at_plain_target (env : Env) (r : Results) (h : Handle) (d : Dir) (hd : targetIsDir h d = false) :
+    writeToFileAt env r h d = writeToFile r h d := by
+  simp [writeToFileAt, hd, writeToFileIn_eq]
+
+/-- the executable spec for both situations holds of the model -/
+theorem write_at_meets_spec (env : Env) (r : Results) (h : Handle) (d : Dir) :
+    specWriteAt r h d (writeToFileAt env r h d) = true := by
+  unfold specWriteAt
+  cases hd : targetIsDir h d with
+  | false =>
+    rw [write_at_plain_target env r h d hd]
+    simpa using write_to_file_meets_spec r h d
+  | true =>
+    cases h with
+    | absent => simp [targetIsDir] at hd
+    | io n => simp [targetIsDir] at hd
+    | path n =>
+      obtain ⟨⟨e, he⟩, h2, h3, h4⟩ := directory_target_untouched env r n d hd
+      simp only [if_true, he, h2, Option.isSome_some, decide_true, Bool.and_true]
+      cases hf : r.hasFault with
+      | true =>
+        have hq := h3 hf
+        have hnw : (writeToFileAt env r (.path n) d).trace.any
+            Ev.writesOrRemoves = false := by
+          rw [List.any_eq_false] at hq ⊢
+          intro x hx
+          have := hq x hx
+          cases x <;> simp_all [Ev.touchesFiles, Ev.writesOrRemoves]
+        simp [convertThenTouch_quiet _ hq, hq, hnw]
+      | false =>
+        rw [h4 hf]
+        have hq := quiet_trace _ fun ev hev =>
+          Or.inl (convertRecords_trace 0 r.records r.results ev hev)
+        have hnw : ((convertRecords 0 r.records r.results).trace ++ [Ev.openW n]).any
+            Ev.writesOrRemoves = false := by
+          rw [List.any_eq_false] at hq ⊢
+          intro x hx
+          rcases List.mem_append.1 hx with hx | hx
+          · have := hq x hx
+            cases x <;> simp_all [Ev.touchesFiles, Ev.writesOrRemoves]
+          · simp only [List.mem_singleton] at hx; subst hx; simp [Ev.writesOrRemoves]
+        rw [convertThenTouch_append _ _ hq]
+        simp [convertThenTouch, Ev.touchesFiles, hnw]
+
 /-! ## `run_antismash` under every option it reads -/
 
 /-- **a refused output directory is untouched, whatever the options**: for every combination of
@@ -857,6 +932,10 @@ example : runFull { exProf with input := .reuse (.doc (some 9)) }
     ⟨⟨[], some "ValueError", .dir [⟨"base.json", false, [.raw "j"]⟩]⟩, none⟩ := by decide
 /-- `envOk` says nothing about the `name` argument: it holds for the empty one -/
 example : (exCall "/data/genome.gbk" "").envOk = true ∧ (exCall "/data/genome.gbk" "").nameArg = "" := by decide
+/-- a directory where the results file should go: the conversion runs, `open` fails, nothing changes -/
+example : writeToFileAt ⟨.utf8⟩ exClean (.path "res.json") [⟨"res.json", true, []⟩, ⟨"keep.txt", false, [.raw "k"]⟩] =
+    ⟨[.recConv 0, .modConv 0 0, .openW "res.json"], some "IsADirectoryError",
+     [⟨"res.json", true, []⟩, ⟨"keep.txt", false, [.raw "k"]⟩]⟩ := by decide
 /-- orjson's integer range is a fault boundary -/
 example : (PyVal.int 18446744073709551615).faulty = false ∧ (PyVal.int 18446744073709551616).faulty = true := by
   decide
